@@ -18,7 +18,7 @@ PROP = "c02"
 RULE = (
     "(a) every table of n_face rows, each row any sequence of 3..W distinct nodes out of n_node (all rotations, both "
     "orientations, all padding layouts), at exact width and padded width; (b) catalogue meshes + every non-empty face "
-    "subset (<= 8 faces) under node relabelling / face order / start corner deviations <= k; (c) all 5! first-access "
+    "subset (<= 8 faces) under node relabelling / face order / start corner deviations <= k, the input table given C-ordered, Fortran-ordered, as a strided view and read-only; (c) all 5! first-access "
     "orders of {n_edge, edge_node_connectivity, face_edge_connectivity, n_nodes_per_face, n_max_face_edges}. "
     "non-trivial = table with >= 2 faces sharing a node, or mixed sizes, or padding present; distinct = table content"
 )
@@ -37,12 +37,23 @@ FILL = meshes.INT_FILL
 OBS = ["n_edge", "edge_node_connectivity", "face_edge_connectivity", "n_nodes_per_face", "n_max_face_edges"]
 
 
-def mkgrid(faces, width, n_node, lon=LON, lat=LAT):
+LAYOUTS = ["C", "F", "strided", "readonly"]
+
+
+def mkgrid(faces, width, n_node, lon=LON, lat=LAT, layout="C"):
     import uxarray as ux
 
     t = np.full((len(faces), width), FILL, dtype=np.intp)
     for i, f in enumerate(faces):
         t[i, : len(f)] = f
+    if layout == "F":
+        t = np.asfortranarray(t)
+    elif layout == "strided":
+        big = np.full((2 * len(faces), 2 * width), 7, dtype=np.intp)
+        big[::2, ::2] = t
+        t = big[::2, ::2]
+    elif layout == "readonly":
+        t.setflags(write=False)
     return ux.Grid.from_topology(lon[:n_node].copy(), lat[:n_node].copy(), t, fill_value=FILL)
 
 
@@ -88,9 +99,9 @@ def _nontrivial(faces, width):
     return len(sizes) > 1 or shared or any(len(f) < width for f in faces)
 
 
-def _check(faces, width, n_node, closed, res, focus, lon=LON, lat=LAT):
+def _check(faces, width, n_node, closed, res, focus, lon=LON, lat=LAT, layout="C"):
     try:
-        g = mkgrid(faces, width, n_node, lon, lat)
+        g = mkgrid(faces, width, n_node, lon, lat, layout)
     except Exception as e:
         res["violations"].append({"oracle": "construct", "sig": "c02:construct:%s" % type(e).__name__, "msg": repr(e), "focus": focus})
         return
@@ -141,8 +152,13 @@ def run_case(case):
                 continue
             lo, la = m.lonlat()
             for w in (m.width, m.width + 1):
-                _check(m.faces, w, m.n_node, m.closed, res, {"kind": "mesh", "mesh": case["mesh"], "k": case["k"], "only": d, "width": w}, lo, la)
-        res["axes"] = {"mesh": {case["mesh"]: res["evaluations"]}, "deviations": {case["k"]: res["evaluations"]}}
+                for layout in (LAYOUTS if d.get("dev", 0) <= 1 else ["C"]):
+                    if "layout" in case and case["layout"] != layout:
+                        continue
+                    _check(m.faces, w, m.n_node, m.closed, res, {"kind": "mesh", "mesh": case["mesh"], "k": case["k"], "only": d, "width": w, "layout": layout}, lo, la, layout)
+                    lay = res.setdefault("_lay", {})
+                    lay[layout] = lay.get(layout, 0) + 1
+        res["axes"] = {"mesh": {case["mesh"]: res["evaluations"]}, "deviations": {case["k"]: res["evaluations"]}, "memory_layout": res.pop("_lay", {})}
         res["sample"] = {"kind": "mesh", "mesh": case["mesh"], "deviation": d}
         return res
     if kind == "subsets":
